@@ -5,26 +5,59 @@ Model driver for C06 (chunking independence).  Ops mirror harness/c06.cpp:
   o5m <cuts> <script> <hex>   -> "r<0|1>:<consumed>:<windowhex> ..."
   o5mds <cuts> <hex>          -> dataset stream of the o5m loop: "D <n> <t>:<payload>|R|O<t> ... [err:<class>]"
   xml <cuts> <hex>            -> the feed calls "X <n> <hex>:<0|1> ..."
+Long-record ops (digests instead of hex: `<len>:<fnv64>`; run through the linear-time twins of
+Model/ChunksFast.lean, proved equal to the specified functions in Props/C06.lean):
+  oplx <cuts> <data>          -> "L <n> <len>:<fnv> ..."
+  pbfx <cuts> <data>          -> "F <n> <hdrlen>:<fnv>/<bloblen>:<fnv> ... [err:<class>]"
+  o5mx <cuts> <script> <data> -> "r<0|1>:<consumed>:<len>:<fnv of the first and last 64 window bytes> ..."
+<data> = hex | "-" | "@<path>" (bytes of that file);  <cuts> = "-" | c1,c2,... | "%<k>" | "%<k>+<o>"
+(pieces of k bytes, the first cut at o if o > 0).
 -/
 import Osmium.Model.Chunks
+import Osmium.Model.ChunksFast
 import Osmium.Model.PbfFraming
 import Driver.Common
 
 open Osmium.Chunks Osmium.Wire Driver
 
-def parseCuts (s : String) : Option (List Nat) :=
-  if s == "-" then some [] else (s.splitOn ",").mapM String.toNat?
+/-- every `k` bytes starting at `o` (at `k` if `o = 0`), below `len` -/
+def fixedCuts (k o len : Nat) : List Nat :=
+  if k == 0 then [] else
+  let first := if o == 0 then k else o
+  if first ≥ len then [] else
+  (List.range ((len - 1 - first) / k + 1)).map (fun i => first + i * k)
 
-/-- same piece splitting as the harness: cuts must be ascending, inside (0, len) -/
+def parseCuts (s : String) (len : Nat := 0) : Option (List Nat) :=
+  if s == "-" then some []
+  else if s.startsWith "%" then
+    match ((s.drop 1).toString.splitOn "+").mapM String.toNat? with
+    | some [k] => some (fixedCuts k 0 len)
+    | some [k, o] => some (fixedCuts k o len)
+    | _ => none
+  else (s.splitOn ",").mapM String.toNat?
+
+/-- the digest of harness/c06.cpp (`fnv`, same offset basis) -/
+def fnv (bs : Bytes) : UInt64 :=
+  bs.foldl (fun h b => (h ^^^ b.toUInt64) * 1099511628211) 1469598103934665603
+
+def dig (bs : Bytes) : String := s!"{bs.length}:{(fnv bs).toNat}"
+
+/-- window digest of `o5mx`: length + digest of the first and last 64 bytes -/
+def digw (bs : Bytes) : String :=
+  let n := bs.length
+  if n ≤ 128 then dig bs else s!"{n}:{(fnv (bs.take 64 ++ bs.drop (n - 64))).toNat}"
+
+/-- same piece splitting as the harness: cuts must be ascending, inside (0, len);
+    `remLen` = length of `rem` (kept, not recomputed: linear in the data) -/
 def splitPieces (data : Bytes) (cuts : List Nat) : List Bytes :=
-  let rec go (rem : Bytes) (last : Nat) (cuts : List Nat) (acc : List Bytes) : List Bytes :=
+  let rec go (rem : Bytes) (remLen : Nat) (last : Nat) (cuts : List Nat) (acc : List Bytes) : List Bytes :=
     match cuts with
     | [] => (if rem.isEmpty then acc else rem :: acc).reverse
     | c :: cs =>
-      if c > last && c < last + rem.length then
-        go (rem.drop (c - last)) c cs (rem.take (c - last) :: acc)
-      else go rem last cs acc
-  go data 0 cuts []
+      if c > last && c < last + remLen then
+        go (rem.drop (c - last)) (remLen - (c - last)) c cs (rem.take (c - last) :: acc)
+      else go rem remLen last cs acc
+  go data data.length 0 cuts []
 
 def pbfErrName : PbfErr → String
   | .truncated => "err:truncated"
@@ -51,6 +84,42 @@ def runScript (o : O5mIn) : List String → List String → Option (List String)
       else
         let o' := o.advance (min n o.window.length)
         runScript o' rest (s!"r1:{o'.consumed}:{hex o'.window}" :: acc)
+
+def runScriptX (o : O5mIn) : List String → List String → Option (List String)
+  | [], acc => some acc.reverse
+  | tok :: rest, acc =>
+    let n? := (tok.drop 1).toString.toNat?
+    match n? with
+    | none => none
+    | some n =>
+      if tok.startsWith "e" then
+        let (r, o') := o.ensureF n
+        runScriptX o' rest (s!"r{b01 r}:{o'.consumed}:{digw o'.window}" :: acc)
+      else
+        let o' := o.advance (min n o.window.length)
+        runScriptX o' rest (s!"r1:{o'.consumed}:{digw o'.window}" :: acc)
+
+/-- ops whose data argument has been resolved (hex or file contents) -/
+def stepX (op cuts : String) (script : Option String) (data : Bytes) : String :=
+  match parseCuts cuts data.length with
+  | none => "bad-op"
+  | some cs =>
+    let pieces := splitPieces data cs
+    match op, script with
+    | "oplx", none =>
+      let ls := lineByLineF pieces
+      " ".intercalate (["L", toString ls.length] ++ ls.map dig)
+    | "pbfx", none =>
+      let (fs, e) := pbfFramesF Osmium.PbfFraming.maxBlobHeaderSize Osmium.PbfFraming.maxUncompressedBlobSize
+        Osmium.PbfFraming.blobSize pieces
+      " ".intercalate (["F", toString fs.length] ++ fs.map (fun (a, b) => dig a ++ "/" ++ dig b)
+        ++ (match e with | none => [] | some e => [pbfErrName e]))
+    | "o5mx", some sc =>
+      let o : O5mIn := { consumed := 0, window := [], src := { chunks := pieces } }
+      match runScriptX o (sc.splitOn ",") [] with
+      | some out => " ".intercalate out
+      | none => "bad-op"
+    | _, _ => "bad-op"
 
 def step (line : String) : String :=
   match words line with
@@ -92,4 +161,43 @@ def step (line : String) : String :=
     | _, _ => "bad-op"
   | _ => "bad-op"
 
-def main : IO Unit := loopPure step
+/-- `@path` → contents of the file (the last file is kept: consecutive ops use the same one) -/
+def resolve (cache : Option (String × Bytes)) (arg : String) : IO (Option Bytes × Option (String × Bytes)) := do
+  if arg.startsWith "@" then
+    let path := (arg.drop 1).toString
+    match cache with
+    | some (p, bs) => if p == path then return (some bs, cache) else pure ()
+    | none => pure ()
+    try
+      let ba ← IO.FS.readBinFile path
+      let bs := ba.toList
+      return (some bs, some (path, bs))
+    catch _ => return (none, cache)
+  else
+    return (unhex arg, cache)
+
+partial def mainLoop (cache : Option (String × Bytes)) : IO Unit := do
+  let stdin ← IO.getStdin
+  let stdout ← IO.getStdout
+  let line ← stdin.getLine
+  if line.isEmpty then
+    stdout.flush
+    return ()
+  match words line with
+  | [op, cuts, d] =>
+    if op == "oplx" || op == "pbfx" then
+      let (data, cache') ← resolve cache d
+      stdout.putStrLn (match data with | some bs => stepX op cuts none bs | none => "bad-op")
+      mainLoop cache'
+    else
+      stdout.putStrLn (step line)
+      mainLoop cache
+  | ["o5mx", cuts, sc, d] =>
+    let (data, cache') ← resolve cache d
+    stdout.putStrLn (match data with | some bs => stepX "o5mx" cuts (some sc) bs | none => "bad-op")
+    mainLoop cache'
+  | _ =>
+    stdout.putStrLn (step line)
+    mainLoop cache
+
+def main : IO Unit := mainLoop none
